@@ -56,6 +56,15 @@ Theorem C09_remove_fully_scope f key m cp nd :
   (forall l, l <> InCache cp -> l <> InCache (bucket_path hash key) -> lookup f' l = lookup f l).
 Proof. exact (remove_fully_scope hash f key m cp nd). Qed.
 
+Theorem C09_remove_fully_content_gone f key m cp :
+  IndexInv f -> abs_idx hash f key = Some m -> content_path (m_sri m) = Some cp ->
+  lookup f (InCache cp) = None ->
+  let f' := snd (run (remove_fully hash key) f) in
+  fst (run (remove_fully hash key) f) = Ok tt /\
+  abs_idx hash f' key = None /\
+  (forall l, l <> InCache (bucket_path hash key) -> lookup f' l = lookup f l).
+Proof. exact (remove_fully_content_gone hash f key m cp). Qed.
+
 Theorem C09_clear_scope f :
   NoDupKeys f -> RootShape f ->
   let f' := snd (run clear f) in
@@ -81,7 +90,9 @@ Example C09_example_remove_fully :
   fst (run (remove_fully toy_hash (bs "k1")) ex_fs) = Ok tt /\
   fst (run (find toy_hash (bs "k1")) f') = Ok None /\
   (exists m, fst (run (find toy_hash (bs "k2")) f') = Ok (Some m)) /\
-  fst (run (read toy_hash (bs "k2")) f') = Err EIoErr.
+  fst (run (read toy_hash (bs "k2")) f') = Err EIoErr /\
+  fst (run (remove_fully toy_hash (bs "k2")) f') = Ok tt /\
+  fst (run (find toy_hash (bs "k2")) (snd (run (remove_fully toy_hash (bs "k2")) f'))) = Ok None.
 Proof. vm_compute. repeat split; try reflexivity. eexists; reflexivity. Qed.
 Example C09_example_clear :
   RootShape ex_fs /\ snd (run clear ex_fs) = [].
@@ -99,5 +110,6 @@ Print Assumptions C09_remove_listing.
 Print Assumptions C09_remove_hash_scope.
 Print Assumptions C09_remove_fully_frame.
 Print Assumptions C09_remove_fully_scope.
+Print Assumptions C09_remove_fully_content_gone.
 Print Assumptions C09_clear_scope.
 Print Assumptions C09_clear_usable.
